@@ -11,7 +11,7 @@ open Hbs RM
 def sameScope (a b : RC) : Prop :=
   a.blocks = b.blocks ∧ a.pbStack = b.pbStack ∧ a.disableEscape = b.disableEscape ∧
   a.indentString = b.indentString ∧ a.partials = b.partials ∧ a.localHelpers = b.localHelpers ∧
-  a.modifiedCtx = b.modifiedCtx ∧ a.pbDepth = b.pbDepth ∧ a.currentTemplate = b.currentTemplate
+  a.modifiedCtx = b.modifiedCtx ∧ a.pbBinding = b.pbBinding ∧ a.currentTemplate = b.currentTemplate
 
 theorem sameScope_refl (a : RC) : sameScope a a := ⟨rfl, rfl, rfl, rfl, rfl, rfl, rfl, rfl, rfl⟩
 
@@ -90,11 +90,9 @@ theorem frame_html_escape (reg : Registry) (root : Json) (fuel : Nat) (ht : Help
     afterwards is the stack before -/
 theorem with_push_pop (b : Block) (bs : List Block) : (b :: bs).drop 1 = bs := rfl
 
-/-- partials save and restore blocks, template name and indentation (see C09.partial_scope_is_fresh);
-    NEGATION WITNESS (known finding F2): `partial_block_depth` is changed and NOT restored – after
-    `{{> p}}` (p ≠ @partial-block) the depth is `depth - 1`, after `{{> @partial-block}}` it is
-    `depth + 1`, which is what breaks a second `{{> @partial-block}}`. -/
-theorem pb_depth_not_restored (rc : RC) :
-    ({ rc with pbDepth := rc.pbDepth + 1 } : RC).pbDepth ≠ rc.pbDepth := by simp
+/-- partials save and restore blocks, template name, indentation AND the @partial-block binding: see
+    C09.partial_block_binding_restored (before the repair the binding – then a depth counter – was
+    changed by every inclusion and not restored, which broke a second `{{> @partial-block}}`). -/
+theorem binding_is_part_of_the_frame (a b : RC) (h : sameScope a b) : a.pbBinding = b.pbBinding := h.2.2.2.2.2.2.2.1
 
 end Hbs.C08
